@@ -104,7 +104,7 @@ def scenarios(rng, tier):
         ops = [send(dest=d, etype=e, csrc=c) for d in DESTS for e in ('ev', '', 5) for c in CTOR_SOURCES]
         for i in range(0, len(ops), 21):
             yield {'kind': 'send', 'phase': phase, 'ops': ops[i:i + 21]}
-    n = 150 if tier == 'quick' else 4000
+    n = 150 if tier == 'quick' else 30000
     for _ in range(n):
         phase = rng.choice(PHASES)
         ops = []
@@ -122,7 +122,7 @@ def scenarios(rng, tier):
     yield {'kind': 'names', 'ops': [['user', u] for u in user]}
     yield {'kind': 'names', 'ops': [['ctrl'], ['notOf', 'a'], ['user', 'a'], ['cron', 0], ['cron', 1], ['notOf', 'n1'],
                                     ['auto', 'Probe2'], ['notOf', '_x']]}
-    for _ in range(40 if tier == 'quick' else 600):
+    for _ in range(40 if tier == 'quick' else 4000):
         ops = []
         for _ in range(rng.randint(1, 6)):
             r = rng.random()
